@@ -6,3 +6,4 @@ open Bec2Verif.Props.C02
 #print axioms bec2_read_write
 #print axioms bec2_read_write_plain
 #print axioms adapter_instance
+#print axioms bec2_read_write_aes
